@@ -1,5 +1,85 @@
 (* C12 property theorems. Nothing but statements closed by [exact]. *)
-From OIDC Require Import Lib Base64 Base64_proofs Cipher Cipher_proofs C12_spec C12_proofs.
+From OIDC Require Import Lib Base64 Base64_proofs Cipher Cipher_proofs C12_spec C12_Codec_proofs C12_proofs.
+
+(* ---------------- claims codec ---------------- *)
+
+(* Unmarshal (Marshal t) for each of the eight types ty (ID/access/logout token
+   claims, UserInfo, IntrospectionResponse, JWT-profile assertion, JWTTokenRequest,
+   ActorClaims), any custom map, any oracles for RFC 3339 / language tags:
+   [norm] (C12_Codec.v) says it out: a set member comes back as it was (a nil
+   pointer for the root locale), an unset member reads the custom claim of its
+   name if there is one, the custom map becomes the whole encoded object.
+   [pre] is the username := preferred_username assignment of
+   IntrospectionResponse.MarshalJSON; [vals_wf]: scope elements without spaces,
+   locale tags that the language package prints as read. *)
+Theorem C12_roundtrip_T : forall rfc lt lp ty vals claims,
+  vals_wf lt (schema_of ty) (pre ty vals) = true ->
+  decode rfc lt lp (schema_of ty) (JObj (encode_T ty vals claims))
+  = norm rfc lt lp (schema_of ty) (pre ty vals) claims.
+Proof. exact roundtrip_T. Qed.
+Print Assumptions C12_roundtrip_T.
+
+(* nested actors, any depth: ActorClaims.Unmarshal (ActorClaims.Marshal a) *)
+Theorem C12_roundtrip_actor : forall a, dec_actor (enc_actor a) = norm_actor a.
+Proof. exact actor_roundtrip. Qed.
+Print Assumptions C12_roundtrip_actor.
+
+(* a registered member that is written (set, or not omitempty) is what the
+   encoded object holds under its name, whatever the custom map holds *)
+Theorem C12_registered_wins : forall ty vals claims f v j,
+  In (f, v) (combine (schema_of ty) (pre ty vals)) -> marshal_field f v = Some j ->
+  lookup (fname f) (encode_T ty vals claims) = Some j.
+Proof. exact registered_wins_T. Qed.
+Print Assumptions C12_registered_wins.
+
+(* audience as string or array; time as number or RFC 3339 string; Bool as
+   true or "true"; locales / scope as space-delimited string (or array) *)
+Theorem C12_tolerant_forms : forall rfc lt lp,
+  (forall s, dec_field rfc lt lp KAud (JStr s) = Ok (VStrs (Some [s]))) /\
+  (forall l, dec_field rfc lt lp KAud (JArr (map JStr l)) = Ok (VStrs (Some l))) /\
+  (forall z, dec_field rfc lt lp KTime (JNum z "") = Ok (VTime z)) /\
+  (forall s z, rfc s = Some z -> dec_field rfc lt lp KTime (JStr s) = Ok (VTime z)) /\
+  (dec_field rfc lt lp KBoolS (JStr "true") = Ok (VBool true) /\
+   dec_field rfc lt lp KBoolS (JBool true) = Ok (VBool true)) /\
+  (forall l, l <> [] -> forallb space_free l = true ->
+     dec_field rfc lt lp KLocales (JStr (join_sp l)) = dec_field rfc lt lp KLocales (JArr (map JStr l)) /\
+     dec_field rfc lt lp KLocales (JArr (map JStr l)) = Ok (VStrs (Some (parse_locales lp l)))) /\
+  (forall l, l <> [] -> forallb space_free l = true ->
+     dec_field rfc lt lp KSDA (JStr (join_sp l)) = Ok (VStrs (Some l))).
+Proof. exact tolerant_forms. Qed.
+Print Assumptions C12_tolerant_forms.
+
+(* every member decoder, every JSON value: never a panic; an accepted value is
+   empty or a documented reading of that JSON value ([from_doc], C12_spec.v) *)
+Theorem C12_other_forms_err_or_zero : forall o k j,
+  match dec_field_o o k j with
+  | Panic => False
+  | Err => True
+  | Ok v => from_doc o k (Some j) v = true
+  end.
+Proof. exact other_forms_err_or_zero. Qed.
+Print Assumptions C12_other_forms_err_or_zero.
+
+(* every type, every document: never a panic; when accepted, the custom map is
+   the document and every member is empty or read from the document's entry *)
+Theorem C12_decode_any_document : forall o ty doc,
+  match decode_o o (schema_of ty) doc with
+  | Panic => False
+  | Err => True
+  | Ok (vs, cl) => cl = match doc with JObj d => d | _ => [] end /\
+                   fields_from o (schema_of ty) vs cl = true
+  end.
+Proof. exact decode_doc. Qed.
+Print Assumptions C12_decode_any_document.
+
+(* the property predicate evaluated by every run holds on the model's answer
+   for EVERY codec input: all values of all types (well-formed or not, custom
+   keys colliding or not), all documents, all stand-alone decoder inputs *)
+Theorem C12_codec_spec_holds : forall i, is_codec i = true -> spec i (model i) = true.
+Proof. exact spec_model_codec. Qed.
+Print Assumptions C12_codec_spec_holds.
+
+(* ---------------- sealing ---------------- *)
 
 (* base64.RawURLEncoding round trip, every byte string *)
 Theorem C12_b64_roundtrip : forall l, all_bytesP l -> b64_decode (b64_encode l) = Some l.
@@ -13,3 +93,15 @@ Theorem C12_seal_open : forall (E : list nat -> list nat),
   open E (seal E iv p) = Some p.
 Proof. exact open_seal. Qed.
 Print Assumptions C12_seal_open.
+
+(* under another key (block function E') the plaintext comes back exactly when
+   the two key streams agree on the bytes used; that this does not happen for
+   distinct AES keys is AES's strength, not proved *)
+Theorem C12_open_other_key : forall (E E' : list nat -> list nat),
+  (forall b, List.length (E b) = 16) -> (forall b, List.length (E' b) = 16) ->
+  (forall b, all_bytesP (E b)) ->
+  forall iv p, List.length iv = 16 -> all_bytesP iv -> all_bytesP p ->
+  (open E' (seal E iv p) = Some p <->
+   streams_agree E E' (List.length p) iv (cfb_enc E (List.length p) iv p)).
+Proof. exact open_other_key. Qed.
+Print Assumptions C12_open_other_key.
